@@ -20,9 +20,9 @@ mod util;
 pub use context::{Context, Mode};
 use pretty::{Arena, DocAllocator, DocBuilder};
 use style::FoldStyle;
-use typst_syntax::{ast::*, SyntaxNode};
+use typst_syntax::{ast::*, SyntaxKind, SyntaxNode};
 
-use crate::{AttrStore, Config};
+use crate::{ext::StrExt, AttrStore, Config};
 
 pub type ArenaDoc<'a> = DocBuilder<'a, Arena<'a>>;
 
@@ -47,7 +47,12 @@ impl<'a> PrettyPrinter<'a> {
 
     fn get_fold_style_untyped(&self, ctx: Context, node: &'a SyntaxNode) -> FoldStyle {
         if ctx.break_suppressed {
-            return if self.attr_store.is_multiline(node) {
+            // Only line breaks of the list itself count. Those inside an item (a code block that always
+            // expands) are also there after folding and must not change the decision in the next pass.
+            let has_own_linebreak = node.children().any(|child| {
+                child.kind() == SyntaxKind::Space && child.text().has_linebreak()
+            });
+            return if has_own_linebreak {
                 FoldStyle::Fit
             } else {
                 FoldStyle::Always
